@@ -4,6 +4,7 @@
 package proxy
 
 import (
+	"bytes"
 	"net"
 	"sync"
 	"sync/atomic"
@@ -20,6 +21,8 @@ type Proxy struct {
 	chunk   int   // deliver in slices of this many bytes (0 = off)
 	delay   time.Duration
 	accepts []time.Time
+	pauseAt int
+	pauseOn string
 	paused  atomic.Bool
 	// Down counts leader->follower bytes in total
 	Down atomic.Int64
@@ -79,6 +82,22 @@ func (p *Proxy) Throttle(chunk int, delay time.Duration) {
 	p.mu.Unlock()
 }
 
+// PauseFromAccept pauses the proxy as soon as its n-th connection (counting
+// from the start of the proxy) is accepted; earlier connections pass freely.
+func (p *Proxy) PauseFromAccept(n int) {
+	p.mu.Lock()
+	p.pauseAt = n
+	p.mu.Unlock()
+}
+
+// PauseOnRequest pauses the proxy when a follower->leader segment contains
+// the given bytes: the leader's answer to that request is held back.
+func (p *Proxy) PauseOnRequest(sub string) {
+	p.mu.Lock()
+	p.pauseOn = sub
+	p.mu.Unlock()
+}
+
 // Pause stops forwarding leader->follower data until Resume.
 func (p *Proxy) Pause()  { p.paused.Store(true) }
 func (p *Proxy) Resume() { p.paused.Store(false) }
@@ -98,6 +117,10 @@ func (p *Proxy) loop() {
 		p.mu.Lock()
 		target := p.Target
 		p.accepts = append(p.accepts, time.Now())
+		if p.pauseAt > 0 && len(p.accepts) >= p.pauseAt {
+			p.paused.Store(true)
+			p.pauseAt = 0
+		}
 		p.mu.Unlock()
 		up, err := net.DialTimeout("tcp", target, 2*time.Second)
 		if err != nil {
@@ -125,6 +148,13 @@ func (p *Proxy) pipeUp(c, up net.Conn) {
 	for {
 		n, err := c.Read(buf)
 		if n > 0 {
+			p.mu.Lock()
+			if p.pauseOn != "" && bytes.Contains(buf[:n], []byte(p.pauseOn)) {
+				// the answer to this request (and everything after it) is held back
+				p.paused.Store(true)
+				p.pauseOn = ""
+			}
+			p.mu.Unlock()
 			if _, werr := up.Write(buf[:n]); werr != nil {
 				break
 			}
